@@ -88,10 +88,7 @@ func (w *world) snapshot() map[string]string {
 		defer f.Close()
 		st, _ := f.Stat()
 		if !st.IsDir() {
-			b, err := io.ReadAll(f)
-			if err != nil {
-				panic(err)
-			}
+			b := readAll(f)
 			m[p] = "f:" + vu.Hex(b)
 			return
 		}
@@ -362,10 +359,13 @@ func (w *world) copyMove(t []string, o *vu.Out) string {
 			}
 			if !sameMap(subtree(before, S, except), subtree(after, S, except)) {
 				o.Stat("violation:copy:" + rel)
-				switch rel {
-				case "equal":
+				switch {
+				case srcS == dstS:
+					// textually identical: the handler's own check must have refused this
+					o.Fail("copymove-identical-destination-not-refused", desc)
+				case rel == "equal":
 					o.Fail("copymove-dst-equivalent-to-src", desc)
-				case "dst-ancestor":
+				case rel == "dst-ancestor":
 					o.Fail("copymove-dst-ancestor-of-src", desc)
 				default:
 					o.Fail("copy-source-changed", desc)
@@ -379,12 +379,14 @@ func (w *world) copyMove(t []string, o *vu.Out) string {
 			}
 			if !intact && !moved {
 				o.Stat("violation:move:" + rel)
-				switch rel {
-				case "equal":
+				switch {
+				case srcS == dstS:
+					o.Fail("copymove-identical-destination-not-refused", desc)
+				case rel == "equal":
 					o.Fail("copymove-dst-equivalent-to-src", desc)
-				case "dst-ancestor":
+				case rel == "dst-ancestor":
 					o.Fail("copymove-dst-ancestor-of-src", desc)
-				case "dst-inside":
+				case rel == "dst-inside":
 					o.Fail("move-dst-inside-src", desc)
 				default:
 					o.Fail("move-source-destroyed", desc)
@@ -396,6 +398,28 @@ func (w *world) copyMove(t []string, o *vu.Out) string {
 		}
 	}
 	return fmt.Sprintf("ok %d %s", status, showSnap(after))
+}
+
+// readAll is io.ReadAll with a guard against a Read that returns (0, nil) forever.
+func readAll(f io.Reader) []byte {
+	var out []byte
+	buf := make([]byte, 512)
+	stalls := 0
+	for {
+		n, err := f.Read(buf)
+		out = append(out, buf[:n]...)
+		if err == io.EOF {
+			return out
+		}
+		if err != nil {
+			panic(err)
+		}
+		if n == 0 {
+			if stalls++; stalls > 2 {
+				panic("Read keeps returning (0, nil)")
+			}
+		}
+	}
 }
 
 func main() { vu.Main(gen, exec) }
